@@ -690,7 +690,7 @@ func (e *codecEngine) Generate(c *Ctx) {
 	g := &codecGen{c: c}
 	per := 150
 	if c.Thorough() {
-		per = 20000
+		per = 1500 // x (every truncation and one corruption per byte of every encoding): ~3 M ops
 	}
 	var schemaNames []string
 	for n := range codecSchemaNames {
@@ -1001,6 +1001,9 @@ func (g *codecGen) malformed(raw []byte, op string, corrupt bool) {
 	step := 1
 	if len(raw) > 80 && !c.Thorough() {
 		step = len(raw) / 40
+	}
+	if len(raw) > 400 && c.Thorough() {
+		step = len(raw) / 200
 	}
 	for cut := 0; cut < len(raw); cut += step {
 		o := c.Do(op + " x" + hex.EncodeToString(raw[:cut]))
